@@ -394,16 +394,19 @@ def c_route_partial():
         import random
         from rig.place_and_route import route
 
-        def call(vr, nets, ma, co, pl, al, _rt):
-            random.seed(7)
+        def build():
+            vr, nets, ma, co, pl, al, _rt = routed(0, 20)
             al = dict(al)
             al.pop("b", None)
-            before = sorted(al)
+            return vr, nets, ma, co, pl, al
+
+        def call(vr, nets, ma, co, pl, al):
+            random.seed(7)
             r1 = route(vr, nets, ma, co, pl, al)
             random.seed(7)
             r2 = route(vr, nets, ma, co, pl)
-            return (r1, r2, sorted(al) == before, sorted(al))
-        return with_args(lambda: routed(0, 20), call)
+            return (r1, r2)
+        return with_args(build, call)
     return f
 
 
